@@ -24,6 +24,7 @@ var checks = map[string]func(tier string) int{
 	"C14": props.CheckC14,
 	"C15": props.CheckC15,
 	"C16": props.CheckC16,
+	"C17": props.CheckC17,
 }
 
 func main() {
